@@ -139,6 +139,17 @@ def c01(tier, seed):
     drifts = e2e_replay(rep, b, orders, {"C01"}, "E2E walks")
     os.remove(b)
     e2e_explore(rep, [seed * 100 + i for i in range(8 if tier == "quick" else 64)], 3000 if tier == "quick" else 30000, orders, {"C01"}, "random virtual-time histories")
+    # the segment itself: a record that mixes two publications pairs a new as_of with an old bound - containment is
+    # gone whatever the rest of the pipeline does. Cover + random schedules of the real ShmWriter/ShmReader.
+    import segchecks
+    segchecks.PROPSETS["C01"] = {"C02"}
+    wprog, rprog, xdrift, raw = segchecks.extract_programs()
+    srun = segchecks.SegRun(rep)
+    cf = segchecks.base_cfgs(tier)
+    b2, r2, _, _ = segchecks.cover(rep, "rp_warm", cf["rp_warm"], wprog, rprog)
+    srun.replay(b2, False, "segment cover rp_warm (torn records reaching clients)")
+    srun.explore(seed, 20 if tier == "quick" else 300, 400, wprog, rprog, crash_pct=6, what="segment random schedules (torn records reaching clients)")
+    drifts += srun.drifts
     if mc_violated and not rep.violations:
         raise ToolError(f"E2E.tla violates {mc_violated} with the code's read orders {orders} but no real execution reproduced it:\n{r.trace_text()[-2500:]}")
     rc = rep.finish()
